@@ -191,11 +191,13 @@ def make_e(params, part, nparts):
 
     def h(n: int, o1: int, o2: int, o3: int, o4: int):
         ln = pick(n, L + 1)
-        idx = tuple(pick(o, NOPS) for o in (o1, o2, o3, o4)[:ln])
-        if idx:
-            assume(idx[0] % nparts == part)
+        if ln:
+            first = pick(o1, NOPS)
+            assume(first % nparts == part)
+            idx = (first,) + tuple(pick(o, NOPS) for o in (o2, o3, o4)[:ln - 1])
         else:
             assume(part == 0)
+            idx = ()
         ops = tuple(OPS[i] for i in idx)
         assume(valid(ops))
         reached(idx, dict(history=fmt(ops)))
